@@ -204,6 +204,10 @@ func runC04(c *Ctx) {
 						first := strings.SplitN(j.Dirs[offender].Text(), "\n", 2)[0]
 						if j.Dirs[offender].Kind == 't' {
 							first = fmtDate(j.Dirs[offender].Date) + " \"" + strings.SplitN(j.Dirs[offender].Desc, "\n", 2)[0]
+							if j.Dirs[offender].Accrual != nil {
+								// the named directive is one of the expanded transactions: other date, description + " (accrual i/n)"
+								first = "\"" + strings.SplitN(j.Dirs[offender].Desc, "\n", 2)[0]
+							}
 						}
 						okCLI = okCLI && strings.Contains(stderr, first)
 					}
